@@ -700,6 +700,28 @@ theorem gen_bnaf_inverse_logdet (A : ℝ → ℝ × ℝ) (act : ℝ → ℝ) (hf
     (condition.getD []) v hinv
   exact ⟨J, h1, h2, by rw [BnafGenPf.gen_bnaf_invld_eq_model A act hok ljf hljf inverter y condition hc, h3]⟩
 
+/-- the closure `linear_to_log_block_diagonal` the generated `block_autoregressive_linear` returns, applied to the unwrapped layer, is
+the hand model's `BnafLayer.logJac` (every well-shaped layer, world, key) -/
+theorem gen_block_logjac_eq_model {K : Type} (W : Bw.World K ℝ) (key : K) (L : BnafLayer ℝ) (hL : BnafWellShaped L) :
+    (GenBnaf.blockAutoregressiveLinear W key L.n (L.b0, L.b1)).2 (linOf L) = L.logJac :=
+  BnafGenPf.gen_block_logjac_eq_model W key L hL
+
+/-- **`bnaf_logdet` on a network built ENTIRELY by generated code**: every layer's closure is the one the generated
+`block_autoregressive_linear` returns (no hypothesis on closures left), the methods are the generated ones. -/
+theorem gen_bnaf_logdet_constructed {K : Type} (W : Bw.World K ℝ) (key : BnafLayer ℝ → K)
+    (A : ℝ → ℝ × ℝ) (act : ℝ → ℝ) (hfst : ∀ z, (A z).1 = act z)
+    (hact : ∀ z, DifferentiableAt ℝ act z ∧ 0 < deriv act z) (hld : ∀ z, (A z).2 = Real.log (deriv act z))
+    {dim depth bd : ℕ} {Ls : List (BnafLayer ℝ)} {condLinear : Option (List (List ℝ))}
+    (hok : NetLawful.BnafOK dim depth bd Ls condLinear)
+    (inverter : List ℝ → Option (List ℝ) → List ℝ) (condition : Option (List ℝ))
+    (hc : condition.isSome = condLinear.isSome) (v : Fin dim → ℝ) :
+    let N := netOf A act dim bd Ls (fun L => (GenBnaf.blockAutoregressiveLinear W (key L) L.n (L.b0, L.b1)).2) condLinear inverter
+    ∃ F : List ℝ → List ℝ, (∀ x, GenBnaf.transform N x condition = some (F x)) ∧
+      ∃ J : (Fin dim → ℝ) →L[ℝ] (Fin dim → ℝ),
+        HasFDerivAt (NetLogDet.coords dim F) J v ∧ 0 < J.det ∧
+        GenBnaf.transformAndLogDet N (List.ofFn v) condition = some (F (List.ofFn v), some (Real.log |J.det|)) :=
+  gen_bnaf_logdet A act hfst hact hld hok _ (BnafGenPf.generated_closures_ok W key hok) inverter condition hc v
+
 /-- the generated `_CallableToBijection.transform_and_log_det` is `(fn z, log |fn' z|)` — the activation record
 `bnaf_logdet_callable` is about (the derivative `jax.grad` computes is a parameter of the translation) -/
 theorem gen_callable_tald (fn : Bw.DFn ℝ) (z : ℝ) :
